@@ -211,6 +211,95 @@ fn wellformed(plan: &RecExpr, catalog: risinglight::catalog::RootCatalogRef) -> 
     issues
 }
 
+/// Where does a plan refer to a column that its input does not produce? ("every column an operator
+/// references is produced by its input", C17.)  Independent re-implementation of the executor's
+/// resolution rule over the schema analysis: an expression is available if it *is* an output of
+/// the input (same hash-consed id), otherwise its operands must be; a plain column that is no
+/// output of the input is unresolved. Returns `<operator>:<role>` labels, used to tell apart the
+/// places where a "column not found from input" panic of the real executor comes from.
+fn locate_unresolved(plan: &RecExpr, catalog: risinglight::catalog::RootCatalogRef) -> Vec<String> {
+    use egg::{Id, Language};
+    let nodes = plan.as_ref();
+    let mut egraph = egg::EGraph::new(TypeSchemaAnalysis { catalog });
+    // add node by node to know the id of every plan node
+    let mut ids: Vec<Id> = Vec::with_capacity(nodes.len());
+    for n in nodes {
+        let m = n.clone().map_children(|c| ids[usize::from(c)]);
+        ids.push(egraph.add(m));
+    }
+    fn is_plan(n: &Expr) -> bool {
+        matches!(
+            n,
+            Expr::Scan(_) | Expr::IndexScan(_) | Expr::Values(_) | Expr::Proj(_) | Expr::Filter(_) | Expr::Order(_) | Expr::Limit(_)
+                | Expr::TopN(_) | Expr::Join(_) | Expr::HashJoin(_) | Expr::MergeJoin(_) | Expr::Apply(_) | Expr::Agg(_)
+                | Expr::HashAgg(_) | Expr::SortAgg(_) | Expr::Window(_) | Expr::Empty(_)
+        )
+    }
+    /// None = resolved; Some(via_ref) = a plain column that the input does not produce, reached
+    /// through a `ref` (a reference evaluated inline because its producer is gone) or directly
+    fn resolve(egraph: &egg::EGraph<Expr, TypeSchemaAnalysis>, e: Id, schema: &[Id], depth: usize, under_ref: bool) -> Option<bool> {
+        if schema.contains(&e) || depth > 64 {
+            return None;
+        }
+        let n = &egraph[e].nodes[0];
+        match n {
+            Expr::Column(_) => Some(under_ref),
+            _ if is_plan(n) => None, // a subquery operand: reported by the walker above
+            _ => {
+                let r = under_ref || matches!(n, Expr::Ref(_));
+                n.children().iter().find_map(|c| resolve(egraph, *c, schema, depth + 1, r))
+            }
+        }
+    }
+    fn has_empty(egraph: &egg::EGraph<Expr, TypeSchemaAnalysis>, e: Id, depth: usize) -> bool {
+        let n = &egraph[e].nodes[0];
+        matches!(n, Expr::Empty(_)) || (depth < 64 && n.children().iter().any(|c| has_empty(egraph, *c, depth + 1)))
+    }
+    let schema_of = |id: Id| -> Vec<Id> { egraph[id].data.schema.clone() };
+    let mut out = vec![];
+    let mut check = |what: &str, expr: Id, schema: &[Id], node: Id| {
+        if let Some(via_ref) = resolve(&egraph, expr, schema, 0, false) {
+            out.push(format!(
+                "{what}:{}{}",
+                if via_ref { "via-ref" } else { "direct" },
+                if has_empty(&egraph, node, 0) { ":over-empty" } else { "" }
+            ));
+        }
+    };
+    for (i, n) in nodes.iter().enumerate() {
+        let id = |c: &Id| ids[usize::from(*c)];
+        match n {
+            Expr::Proj([exprs, c]) => check("proj:exprs", id(exprs), &schema_of(id(c)), ids[i]),
+            Expr::Filter([cond, c]) => check("filter:cond", id(cond), &schema_of(id(c)), ids[i]),
+            Expr::Order([keys, c]) => check("order:keys", id(keys), &schema_of(id(c)), ids[i]),
+            Expr::TopN([_, _, keys, c]) => check("topn:keys", id(keys), &schema_of(id(c)), ids[i]),
+            Expr::Window([exprs, c]) => check("window:exprs", id(exprs), &schema_of(id(c)), ids[i]),
+            Expr::Agg([aggs, c]) => check("agg:aggs", id(aggs), &schema_of(id(c)), ids[i]),
+            Expr::HashAgg([keys, aggs, c]) | Expr::SortAgg([keys, aggs, c]) => {
+                check("hashagg:keys", id(keys), &schema_of(id(c)), ids[i]);
+                check("hashagg:aggs", id(aggs), &schema_of(id(c)), ids[i]);
+            }
+            Expr::Join([_, on, l, r]) => {
+                let mut sc = schema_of(id(l));
+                sc.extend(schema_of(id(r)));
+                check("join:on", id(on), &sc, ids[i]);
+            }
+            Expr::HashJoin([_, cond, lk, rk, l, r]) | Expr::MergeJoin([_, cond, lk, rk, l, r]) => {
+                let op = if matches!(n, Expr::HashJoin(_)) { "hashjoin" } else { "mergejoin" };
+                check(&format!("{op}:lkey"), id(lk), &schema_of(id(l)), ids[i]);
+                check(&format!("{op}:rkey"), id(rk), &schema_of(id(r)), ids[i]);
+                let mut sc = schema_of(id(l));
+                sc.extend(schema_of(id(r)));
+                check(&format!("{op}:cond"), id(cond), &sc, ids[i]);
+            }
+            _ => {}
+        }
+    }
+    out.sort();
+    out.dedup();
+    out
+}
+
 fn plan_types(plan: &RecExpr, catalog: risinglight::catalog::RootCatalogRef) -> Option<Vec<String>> {
     let mut egraph = egg::EGraph::new(TypeSchemaAnalysis { catalog });
     let root = egraph.add_expr(plan);
@@ -237,6 +326,7 @@ pub async fn plancheck(db: &Database, cmd: &Value) -> Value {
     };
     let opt_us = t0.elapsed().as_micros() as u64;
     let issues = wellformed(&optimized, catalog.clone());
+    let unresolved = std::panic::catch_unwind(std::panic::AssertUnwindSafe(|| locate_unresolved(&optimized, catalog.clone()))).unwrap_or_default();
     let tb = std::panic::catch_unwind(std::panic::AssertUnwindSafe(|| plan_types(&bound, catalog.clone()))).unwrap_or(None);
     let to = std::panic::catch_unwind(std::panic::AssertUnwindSafe(|| plan_types(&optimized, catalog.clone()))).unwrap_or(None);
     crate::sqlrun::drain_panics();
@@ -256,7 +346,7 @@ pub async fn plancheck(db: &Database, cmd: &Value) -> Value {
         }
         Err(e) => (json!(e), vec![], vec![], 0),
     };
-    json!({"ok": true, "accepted": true, "issues": issues, "types_bound": tb, "types_optimized": to,
+    json!({"ok": true, "accepted": true, "issues": issues, "unresolved": unresolved, "types_bound": tb, "types_optimized": to,
            "exec": exec, "runtime_types": runtime_types, "chunk_widths": widths, "rows": nrows, "optimize_us": opt_us,
            "plan": optimized.to_string().chars().take(400).collect::<String>()})
 }
